@@ -391,7 +391,7 @@ pub fn run(ctx: &Ctx) -> Report {
   let mut rep = Report::default();
   let mut orc = Oracle::spawn();
   let mut rng = Rng::new(ctx.seed);
-  rep.rule = "random operator trees (and/or/xor/minus/not/degrade/cells.ranges/cells.cellranges.ranges/check/collect) of height <= 4 over structured related canonical leaves (all quantities, widths, depths) fed through the 5 source kinds (owned, borrowed, cell-adapter, FITS stream, builder iterator); the root and every sub-tree are consumed under a monitor that checks size_hint and peek_last before EVERY next() against what is then yielded; the root is compared with the extracted eager evaluation and also piped into the FITS writer and read back; plus all height-1 trees over an exhaustive 4-slot scope. non-trivial = all leaves non-empty and >= 3 nodes; distinct = distinct tree".to_string();
+  rep.rule = "random operator trees (and/or/xor/minus/not/degrade/cells.ranges/cells.cellranges.ranges/check/collect) of height <= 4 over structured related canonical leaves (all quantities, widths, depths) fed through the 5 source kinds (owned, borrowed, cell-adapter, FITS stream, builder iterator); the root and every sub-tree are consumed under a monitor that checks size_hint and peek_last before EVERY next() against what is then yielded; the root is compared with the extracted eager evaluation and also piped into the FITS writer and read back; plus all height-1 trees over an exhaustive 4-slot scope, plus the compositions outer(C, middle(inner(A,B))) (4 binary inner x {none, not, check, degrade} x 4 binary outer x both operand orders) over all canonical lists of a 3-slot window at both ends of every (quantity, width) domain (quick: every 61st (shape, triple) pair; thorough: every 5th; the stride is coprime with the 128 shapes so shapes rotate over the triples). non-trivial = all leaves non-empty and >= 3 nodes; distinct = distinct tree".to_string();
   let mut first_fail: Option<(Q, u8, Tree)> = None;
   // exhaustive height-1 over small scope
   let lists = all_canonical(4);
@@ -427,6 +427,55 @@ pub fn run(ctx: &Ctx) -> Report {
     }
   }
   rep.count("phase:exhaustive-height-1-done");
+  // exhaustive small scope over COMPOSITIONS: outer(C, middle(inner(A, B))) for every binary inner
+  // operator, every unary middle node (none, not, check, degrade) and every binary outer operator in
+  // both operand orders, over all canonical lists of a 3-slot window at both ends of the domain:
+  // a hint computed by one operator from the hint of another (e.g. not over xor) is consumed by a third
+  let lists3 = all_canonical(3);
+  let stride = ctx.n(61, 5); // coprime with the 128 shapes per (A,B,C): the sampled shapes rotate over the triples
+  let mut shape_idx = 0u64;
+  for q in ALL_Q {
+    for w in ALL_W {
+      let d: u8 = if q == Q::S { 0 } else { 4 };
+      let sh = q.shift(w, d);
+      let ncells = q.nd0() << (q.dim() * d as u32);
+      for top in [true, false] {
+        let off = if top { ncells - 3 } else { 0 };
+        let mk = |l: &Vec<(u64, u64)>| Moc { q, w, d, r: l.iter().map(|(s, e)| ((s + off) << sh, (e + off) << sh)).collect() };
+        for la in &lists3 {
+          for lb in &lists3 {
+            for lc in &lists3 {
+              for inner in 0..4u8 {
+                for middle in 0..4u8 {
+                  for outer in 0..8u8 {
+                    shape_idx += 1;
+                    if shape_idx % stride != 0 {
+                      continue;
+                    }
+                    let k = shape_idx / stride;
+                    let (ka, kb, kc) = (k % N_SRC_KINDS, (k / N_SRC_KINDS) % N_SRC_KINDS, (k / (N_SRC_KINDS * N_SRC_KINDS)) % N_SRC_KINDS);
+                    let x0 = Tree::Op2(inner, Box::new(Tree::Leaf(ka, mk(la))), Box::new(Tree::Leaf(kb, mk(lb))));
+                    let x = match middle {
+                      0 => x0,
+                      1 => Tree::Not(Box::new(x0)),
+                      2 => Tree::Id(3, Box::new(x0)),
+                      _ => Tree::Deg(d.saturating_sub(1), Box::new(x0)),
+                    };
+                    let c = Tree::Leaf(kc, mk(lc));
+                    let t = if outer < 4 { Tree::Op2(outer, Box::new(x), Box::new(c)) } else { Tree::Op2(outer - 4, Box::new(c), Box::new(x)) };
+                    if !check_tree(&mut rep, &mut orc, q, w, &t, false) && first_fail.is_none() {
+                      first_fail = Some((q, w, t));
+                    }
+                  }
+                }
+              }
+            }
+          }
+        }
+      }
+    }
+  }
+  rep.count("phase:exhaustive-compositions-done");
   let n = ctx.n(4_000, 150_000);
   for _ in 0..n {
     let q = ALL_Q[rng.below(3) as usize];
